@@ -1,8 +1,6 @@
 package sm
 
 import (
-	"time"
-
 	"github.com/fiorix/go-diameter/v4/diam"
 	"github.com/fiorix/go-diameter/v4/diam/avp"
 	"github.com/fiorix/go-diameter/v4/diam/datatype"
@@ -10,24 +8,6 @@ import (
 )
 
 // C12: client handshake: bounded retransmission, definite outcome, stable afterwards.
-
-const zzTickD = 120 * time.Millisecond // RetransmitInterval (one native tick)
-
-func zzClient(st *StateMachine, retrans int, watchdog bool) *Client {
-	return &Client{
-		Handler:            st,
-		MaxRetransmits:     uint(retrans),
-		RetransmitInterval: zzTickD,
-		EnableWatchdog:     watchdog,
-		WatchdogInterval:   4 * zzTickD,
-		AuthApplicationID:  []*diam.AVP{diam.NewAVP(avp.AuthApplicationID, avp.Mbit, 0, datatype.Unsigned32(4))},
-		AcctApplicationID:  []*diam.AVP{diam.NewAVP(avp.AcctApplicationID, avp.Mbit, 0, datatype.Unsigned32(3))},
-		VendorSpecificApplicationID: []*diam.AVP{diam.NewAVP(avp.VendorSpecificApplicationID, avp.Mbit, 0, &diam.GroupedAVP{AVP: []*diam.AVP{
-			diam.NewAVP(avp.VendorID, avp.Mbit, 0, datatype.Unsigned32(10415)),
-			diam.NewAVP(avp.AuthApplicationID, avp.Mbit, 0, datatype.Unsigned32(16777251)),
-		}})},
-	}
-}
 
 // zzCountCERs parses everything the client wrote and returns the CERs (checking each one's content).
 func zzCheckCER(b []byte, wantAddrs [][4]byte) *diam.Message {
